@@ -106,4 +106,122 @@ theorem div_floor_spec_partial (a b : I32) (ha : 0 ≤ a.toInt) (hb : 0 < b.toIn
 
 example : ¬ (BitVec.slt (10 : I32) (0 : I32)) := by decide
 
+
+/-! ## floor division and always-positive modulo: all arguments -/
+
+
+theorem boolI_ne0 (x : Bool) : (boolI x != 0#32) = x := by cases x <;> decide
+theorem boolI_xor_ne0 (x y : Bool) : (boolI x ^^^ boolI y != 0#32) = (x != y) := by cases x <;> cases y <;> decide
+theorem boolI_toInt (x : Bool) : (boolI x).toInt = if x then 1 else 0 := by cases x <;> decide
+
+theorem df_reduce (a b : I32) :
+    resultOf nodes_div_floor (env2 "in_a" a "in_b" b) =
+      sdiv0 a b - boolI ((srem0 a b != 0) && (a.slt 0 != b.slt 0)) := by
+  simp [resultOf, nodes_div_floor, env2, evalNodes, evalUpTo, evalNode, argVal, CNode.ty?, SigMap.get, alu, cmp,
+    boolI_ne0, boolI_xor_ne0]
+
+/-- **floor division, all arguments** (divisor non-zero; `-2^31 / -1` excluded): the result is the floor quotient,
+as a 32-bit value -/
+theorem div_floor_spec (a b : I32) (hb : b ≠ 0) (hov : a ≠ BitVec.intMin 32 ∨ b ≠ -1#32) :
+    (resultOf nodes_div_floor (env2 "in_a" a "in_b" b)).toInt = (a.toInt.fdiv b.toInt).bmod (2 ^ 32) := by
+  rw [df_reduce]
+  have hB : b.toInt ≠ 0 := by
+    intro h; apply hb; apply BitVec.eq_of_toInt_eq; simpa using h
+  simp only [sdiv0, srem0, hb, if_false]
+  rw [BitVec.toInt_sub, BitVec.toInt_sdiv_of_ne_or_ne a b hov, boolI_toInt, Int.fdiv_eq_tdiv]
+  congr 1
+  congr 1
+  -- the adjustment
+  have hr : (a.srem b != (0 : I32)) = !decide (b.toInt ∣ a.toInt) := by
+    have : (a.srem b = 0#32) ↔ b.toInt ∣ a.toInt := by
+      rw [← BitVec.toInt_inj, BitVec.toInt_srem]
+      simp only [BitVec.toInt_zero]
+      exact (Int.dvd_iff_tmod_eq_zero).symm
+    by_cases hd : b.toInt ∣ a.toInt
+    · simp [hd, this.mpr hd]
+    · have : ¬ a.srem b = 0#32 := fun h => hd (this.mp h)
+      simp [hd, this]
+  have ha : a.slt 0 = decide (a.toInt < 0) := by simp [BitVec.slt]
+  have hbs : b.slt 0 = decide (b.toInt < 0) := by simp [BitVec.slt]
+  rw [hr, ha, hbs]
+  by_cases hd : b.toInt ∣ a.toInt
+  · simp [hd]
+  · simp only [hd, decide_false, Bool.not_false, Bool.true_and, if_false]
+    by_cases h1 : 0 ≤ a.toInt <;> by_cases h2 : 0 ≤ b.toInt
+    · have : ¬ a.toInt < 0 := by omega
+      have : ¬ b.toInt < 0 := by omega
+      simp [*]
+    · have : ¬ a.toInt < 0 := by omega
+      have : b.toInt < 0 := by omega
+      simp [*]
+    · have : a.toInt < 0 := by omega
+      have : ¬ b.toInt < 0 := by omega
+      have hs : b.toInt.sign = 1 := Int.sign_eq_one_of_pos (by omega)
+      simp [*]
+    · have : a.toInt < 0 := by omega
+      have : b.toInt < 0 := by omega
+      have hs : b.toInt.sign = -1 := Int.sign_eq_neg_one_of_neg (by omega)
+      simp [*]
+
+
+
+/-- **always-positive modulo, all arguments** (divisor non-zero): the result is the Euclidean remainder
+`a mod |b|` (non-negative, like Python's `%` for positive `b`), as a 32-bit value -/
+theorem mod_positive_spec (a b : I32) (hb : b ≠ 0) :
+    (resultOf nodes_mod_positive (env2 "in_a" a "in_b" b)).toInt = (a.toInt % b.toInt).bmod (2 ^ 32) := by
+  have hred : resultOf nodes_mod_positive (env2 "in_a" a "in_b" b) =
+      ((if BitVec.slt (srem0 a b) 0#32 = false then srem0 a b else 0#32) +
+        if BitVec.slt (srem0 a b) 0#32 = true then
+          srem0 a b + ((if BitVec.slt b 0#32 = false then b else 0#32) + if BitVec.slt b 0#32 = true then -b else 0#32)
+        else 0#32) := by
+    simp [resultOf, nodes_mod_positive, env2, evalNodes, evalUpTo, evalNode, argVal, CNode.ty?, SigMap.get, alu, cmp]
+  rw [hred]
+  simp only [srem0, hb, if_false]
+  have hR : (a.srem b).toInt = a.toInt.tmod b.toInt := BitVec.toInt_srem a b
+  have hrs : BitVec.slt (a.srem b) 0#32 = decide (a.toInt.tmod b.toInt < 0) := by simp [BitVec.slt, hR]
+  have hbs : BitVec.slt b 0#32 = decide (b.toInt < 0) := by simp [BitVec.slt]
+  have hB : b.toInt ≠ 0 := by
+    intro h; apply hb; apply BitVec.eq_of_toInt_eq; simpa using h
+  -- when is the truncated remainder negative?
+  have hneg : a.toInt.tmod b.toInt < 0 ↔ ¬ (0 ≤ a.toInt ∨ b.toInt ∣ a.toInt) := by
+    constructor
+    · intro h hc
+      rcases hc with h0 | hd
+      · have := Int.tmod_nonneg b.toInt h0; omega
+      · have := Int.dvd_iff_tmod_eq_zero.mp hd; omega
+    · intro h
+      have h0 : a.toInt < 0 := by
+        apply Classical.byContradiction; intro hc; exact h (Or.inl (by omega))
+      have hd : ¬ b.toInt ∣ a.toInt := fun hd => h (Or.inr hd)
+      have hle : a.toInt.tmod b.toInt ≤ 0 := by
+        have := Int.tmod_nonneg b.toInt (show 0 ≤ -a.toInt by omega)
+        rw [Int.neg_tmod] at this
+        omega
+      have hne : a.toInt.tmod b.toInt ≠ 0 := fun e => hd (Int.dvd_iff_tmod_eq_zero.mpr e)
+      omega
+  rw [Int.emod_eq_tmod]
+  by_cases hr : a.toInt.tmod b.toInt < 0
+  · have hc := hneg.mp hr
+    simp only [hrs, hr, decide_true, Bool.true_eq_false, if_false, if_true, hc, hbs]
+    by_cases hbn : b.toInt < 0
+    · simp only [hbn, decide_true, Bool.true_eq_false, if_false, if_true, BitVec.zero_add]
+      rw [BitVec.toInt_add, hR, BitVec.toInt_neg, Int.add_bmod_bmod]
+      congr 1
+      omega
+    · simp only [hbn, decide_false, if_true, Bool.false_eq_true, if_false, BitVec.add_zero, BitVec.zero_add]
+      rw [BitVec.toInt_add, hR]
+      congr 1
+      omega
+  · have hc : (0 ≤ a.toInt ∨ b.toInt ∣ a.toInt) := by
+      apply Classical.byContradiction; intro h; exact hr (hneg.mpr h)
+    simp only [hrs, hr, decide_false, if_true, Bool.false_eq_true, if_false, BitVec.add_zero, hc]
+    rw [hR]
+    have hb1 : -(2:Int)^31 ≤ a.toInt.tmod b.toInt := by
+      have := BitVec.le_toInt (a.srem b); rw [hR] at this; simpa using this
+    have hb2 : a.toInt.tmod b.toInt < (2:Int)^31 := by
+      have := @BitVec.toInt_lt 32 (a.srem b); rw [hR] at this; simpa using this
+    have e0 : (((0 : Nat) : Int)) = 0 := rfl
+    rw [e0, Int.add_zero, Int.bmod_eq_of_le (by omega) (by omega)]
+
+
 end Facto
